@@ -43,8 +43,11 @@ SpecSpace == UNION {UNION {{WithW([size |-> U * n, mask |-> m, fix |-> f, hk |->
                             : m \in {x \in SUBSET (0..(U * n - 1)) : Cardinality(x) >= MinW}} : n \in Sizes}
                 \* mask = {} is never registered (ispec_register) -- MinW >= 1
 
-PBuild == [E |-> E, maxlen |-> MaxLen, leafmax |-> LeafMax, U |-> U]
-PCall  == [E |-> E, maxlen |-> MaxLen + (IF E = 1 THEN CallExtra ELSE 0), leafmax |-> LeafMax, U |-> U]
+(* disassembler.__init__: maxlen = the longest spec of the table (not of the scope) *)
+TabMaxLen == IF specs = <<>> THEN MaxLen
+             ELSE LET ns == {specs[i].size \div U : i \in 1..Len(specs)} IN CHOOSE n \in ns : \A m \in ns : n >= m
+PBuild == [E |-> E, maxlen |-> TabMaxLen, leafmax |-> LeafMax, U |-> U]
+PCall  == [E |-> E, maxlen |-> TabMaxLen + (IF E = 1 THEN CallExtra ELSE 0), leafmax |-> LeafMax, U |-> U]
 
 RECURSIVE SeqsUpTo(_, _)
 SeqsUpTo(V, n) == IF n = 0 THEN {<<>>} ELSE LET R == SeqsUpTo(V, n - 1) IN R \cup {Append(r, v) : r \in {x \in R : Len(x) = n - 1}, v \in V}
@@ -79,7 +82,7 @@ Inv == Len(specs) >= 1 => LET T == Tree IN EquivOn(T) /\ StructOn(T)
 Perms(X) == {p \in [1..Cardinality(X) -> X] : \A i, j \in 1..Cardinality(X) : i # j => p[i] # p[j]}
 AnyTrees ==
   LET n == Len(specs)
-      bits == 0..(MaxLen * U - 1)
+      bits == 0..(TabMaxLen * U - 1)
       TreesFor(f, a) ==
         LET keys == {a[i] : i \in 1..n}
             LeavesFor(x) == {Leaf(p) : p \in Perms({i \in 1..n : a[i] = x})}
@@ -115,7 +118,7 @@ RECURSIVE SetToSeq(_)
 SetToSeq(X) == IF X = {} THEN <<>> ELSE LET x == CHOOSE x \in X : TRUE IN <<x>> \o SetToSeq(X \ {x})
 
 Behaviour ==
-  [U |-> U, endian |-> E, maxlen |-> MaxLen, callmaxlen |-> PCall.maxlen,
+  [U |-> U, endian |-> E, maxlen |-> TabMaxLen, callmaxlen |-> PCall.maxlen,
    specs |-> [i \in 1..Len(specs) |-> [fmt |-> FmtOf(specs[i]), hk |-> specs[i].hk]],
    leaf |-> Tree.leaf, nleaves |-> Cardinality(LeavesOf(Tree, <<>>)),
    words |-> LET ws == SetToSeq(Words) IN [k \in 1..Len(ws) |-> [w |-> ws[k], win |-> Scan(specs, ws[k], PCall)]]]
